@@ -438,3 +438,163 @@ Proof.
   intros S HS ms H f sched. apply protected_race_free_lemma.
   apply (set_protected_sound S HS ms H).
 Qed.
+
+(* ------------------------------------------------------------ compressed checks are sound *)
+
+Lemma mode_eqb_eq : forall a b, mode_eqb a b = true -> a = b.
+Proof. destruct a, b; simpl; intro H; congruence. Qed.
+
+Lemma held_eqb_eq : forall a b, held_eqb a b = true -> a = b.
+Proof.
+  induction a as [|x a IH]; destruct b as [|y b]; simpl; intro H; try discriminate; auto.
+  apply andb_true_iff in H. destruct H as [H H3].
+  apply andb_true_iff in H. destruct H as [H1 H2].
+  apply Nat.eqb_eq in H1. apply mode_eqb_eq in H2.
+  destruct x, y; simpl in *; subst. f_equal. apply IH; exact H3.
+Qed.
+
+Lemma acc_eqb_eq : forall a b, acc_eqb a b = true -> a = b.
+Proof.
+  intros [fa wa ha] [fb wb hb] H. unfold acc_eqb in H. simpl in H.
+  apply andb_true_iff in H. destruct H as [H H3].
+  apply andb_true_iff in H. destruct H as [H1 H2].
+  apply Nat.eqb_eq in H1. apply Bool.eqb_prop in H2. apply held_eqb_eq in H3.
+  subst. reflexivity.
+Qed.
+
+Lemma action_eqb_eq : forall a b, action_eqb a b = true -> a = b.
+Proof.
+  destruct a, b; simpl; intro H; try discriminate;
+    try (apply andb_true_iff in H; destruct H as [H1 H2];
+         apply Nat.eqb_eq in H1; apply mode_eqb_eq in H2; subst; reflexivity);
+    apply Nat.eqb_eq in H; subst; reflexivity.
+Qed.
+
+Lemma prog_eqb_eq : forall p q, prog_eqb p q = true -> p = q.
+Proof.
+  induction p as [|a p IH]; destruct q as [|b q]; simpl; intro H; try discriminate; auto.
+  apply andb_true_iff in H. destruct H as [H1 H2].
+  apply action_eqb_eq in H1. subst. f_equal. apply IH; exact H2.
+Qed.
+
+Lemma dedupb_complete : forall (A : Type) (eqb : A -> A -> bool),
+  (forall x y, eqb x y = true -> x = y) ->
+  forall l x, In x l -> In x (dedupb eqb l).
+Proof.
+  intros A eqb Heq. induction l as [|y l IH]; simpl; intros x H; auto.
+  destruct (existsb (eqb y) l) eqn:E.
+  - destruct H as [H|H]; auto. subst y.
+    apply existsb_exists in E. destruct E as [z [Hz Ez]].
+    apply Heq in Ez. subst z. apply IH; exact Hz.
+  - destruct H as [H|H]; [left; exact H | right; apply IH; exact H].
+Qed.
+
+Lemma set_protected_c_sound : forall S, set_protected_c S = true -> set_protected S = true.
+Proof.
+  intros S H. unfold set_protected_c in H. unfold set_protected.
+  rewrite forallb_forall in *. intros p Hp. rewrite forallb_forall. intros q Hq.
+  assert (Ip : In (csumm p) (map csumm (dedupb prog_eqb S))).
+  { apply in_map. apply dedupb_complete; auto. apply prog_eqb_eq. }
+  assert (Iq : In (csumm q) (map csumm (dedupb prog_eqb S))).
+  { apply in_map. apply dedupb_complete; auto. apply prog_eqb_eq. }
+  specialize (H _ Ip). rewrite forallb_forall in H. specialize (H _ Iq).
+  unfold accs_ok_any in H. unfold pair_protected_any.
+  rewrite forallb_forall in *. intros a Ha.
+  assert (Ia : In a (csumm p)) by (apply dedupb_complete; auto; apply acc_eqb_eq).
+  specialize (H a Ia). rewrite forallb_forall in *. intros b Hb.
+  apply H. apply dedupb_complete; auto. apply acc_eqb_eq.
+Qed.
+
+(* ------------------------------------------------------------ the API table *)
+
+Lemma safe_warm_protected : set_protected (safe_progs Warm) = true.
+Proof. apply set_protected_c_sound. vm_compute. reflexivity. Qed.
+
+Lemma safe_fixed_protected : set_protected (safe_progs Fixed) = true.
+Proof. apply set_protected_c_sound. vm_compute. reflexivity. Qed.
+
+Lemma find_name : forall (l : list entry) n e,
+  find (fun e => String.eqb (e_name e) n) l = Some e -> In e l /\ e_name e = n.
+Proof.
+  intros l n e H. apply find_some in H. destruct H as [H1 H2].
+  split; auto. apply String.eqb_eq. exact H2.
+Qed.
+
+Lemma empty_prog_safe : forall v, In [] (safe_progs v).
+Proof.
+  intro v. unfold safe_progs. apply in_map_iff.
+  exists (E "Id" none). split; [reflexivity|].
+  destruct v; vm_compute; tauto.
+Qed.
+
+Lemma prog_of_safe : forall v n, is_culprit n = false -> In (prog_of v n) (safe_progs v).
+Proof.
+  intros v n Hn. unfold prog_of, lookup.
+  destruct (find (fun e => String.eqb (e_name e) n) (api_table v)) as [e|] eqn:F.
+  - apply find_name in F. destruct F as [Hin Hname].
+    unfold safe_progs, safe_entries. apply in_map. apply filter_In. split; auto.
+    rewrite Hname, Hn. reflexivity.
+  - apply empty_prog_safe.
+Qed.
+
+Lemma api_race_free_gen : forall v,
+  set_protected (safe_progs v) = true ->
+  forall (names : list string) (f : field) (sched : list nat),
+    (forall n, In n names -> is_culprit n = false) ->
+    race_on f (exec (init (map (prog_of v) names)) sched) = false.
+Proof.
+  intros v HS names f sched H.
+  apply (set_race_free (safe_progs v) HS).
+  intros m Hm. apply in_map_iff in Hm. destruct Hm as [n [En Hn]]. subst m.
+  apply prog_of_safe. apply H. exact Hn.
+Qed.
+
+Lemma api_warm_race_free_lemma :
+  forall (names : list string) (f : field) (sched : list nat),
+    (forall n, In n names -> is_culprit n = false) ->
+    race_on f (exec (init (map (prog_of Warm) names)) sched) = false.
+Proof. exact (api_race_free_gen Warm safe_warm_protected). Qed.
+
+Lemma api_fixed_race_free_lemma :
+  forall (names : list string) (f : field) (sched : list nat),
+    (forall n, In n names -> is_culprit n = false) ->
+    race_on f (exec (init (map (prog_of Fixed) names)) sched) = false.
+Proof. exact (api_race_free_gen Fixed safe_fixed_protected). Qed.
+
+(* ------------------------------------------------------------ guard discipline on the table *)
+
+Lemma well_locked_other_field : forall G f p,
+  ~ In f (fields_of p) -> well_locked G f p = true.
+Proof.
+  intros G f p H. unfold well_locked. rewrite forallb_forall. intros a Ha.
+  unfold acc_guarded. destruct (Nat.eqb (a_field a) f) eqn:E; auto.
+  exfalso. apply H. apply Nat.eqb_eq in E. subst f.
+  unfold fields_of. apply in_map. exact Ha.
+Qed.
+
+Lemma well_locked_all_f : forall G p,
+  well_locked_all G p = true -> forall f, well_locked G f p = true.
+Proof.
+  intros G p H f. unfold well_locked_all in H. rewrite forallb_forall in H.
+  destruct (in_dec Nat.eq_dec f (fields_of p)) as [I|I].
+  - apply H; exact I.
+  - apply well_locked_other_field; exact I.
+Qed.
+
+Lemma guard_discipline_lemma : forall v,
+  forallb (fun e => breaks_discipline (e_name e) || well_locked_all guards (e_prog e))
+          (api_table v) = true.
+Proof. destruct v; vm_compute; reflexivity. Qed.
+
+Lemma api_guarded_race_free_lemma :
+  forall (v : variant) (es : list entry) (f : field) (sched : list nat),
+    (forall e, In e es -> In e (api_table v) /\ breaks_discipline (e_name e) = false) ->
+    race_on f (exec (init (map e_prog es)) sched) = false.
+Proof.
+  intros v es f sched H. apply well_locked_race_free_lemma with (G := guards).
+  intros p f' Hp. apply in_map_iff in Hp. destruct Hp as [e [Ee He]]. subst p.
+  destruct (H e He) as [Hin Hb].
+  pose proof (guard_discipline_lemma v) as G. rewrite forallb_forall in G.
+  specialize (G e Hin). rewrite Hb in G. simpl in G.
+  apply well_locked_all_f. exact G.
+Qed.
